@@ -1,15 +1,19 @@
 // group `transactions`: src/transactions.rs   (C06, C01)
+#![feature(allocator_api)]
 use vstd::prelude::*;
 use vstd::std_specs::iter::IteratorSpec;
 use std::collections::BTreeMap;
 use std::cmp::Ordering;
 use std::iter::Peekable;
+use std::iter;
+use std::ops::{Bound, RangeBounds};
 verus! {
 //@ rewrite R22 "self\\.(left|right)\\.peek\\(\\)" => "Peekable::peek(&mut self.\\1)"
 //@ include prelude/base.rs
 //@ include spec/lex.rs
 //@ include prelude/std_ext.rs
 //@ include prelude/peekable.rs
+//@ include prelude/btree_range.rs
 //@ include contracts/transactions.rs
 } // verus!
 fn main() {}
